@@ -745,7 +745,9 @@ class DLC(utils.EventEmitter):
                 raise InvalidArgumentError('write only accept bytes or strings')
 
         self.tx_buffer += data
-        self.drained.clear()
+        if self.tx_buffer:
+            # (an empty write leaves nothing to drain)
+            self.drained.clear()
         self.process_tx()
 
     async def drain(self) -> None:
